@@ -202,7 +202,7 @@ func runC18(c *Ctx) {
 	if !c.Quick() {
 		step = 1
 	}
-	c.Rule = fmt.Sprintf("scalar functions: every float32 bit pattern with the low %d bits zero (finite values, walked in numeric order so monotonicity is a comparison of numeric neighbours), widened to float64, plus +-{0,1,2,3} ulps around every breakpoint, -0.0, powers of ten 1e-300..1e300 and exp-overflow thresholds; x 20 registered functions: closed form within 4 ulps or 1e-12 relative + 4e-16 absolute, finite, inside documented range, non-decreasing (<=4 ulps slack) for the sigmoid family/tanh/linear/clipped/step. lookups: all 256 type codes and every registered name with every single-character deletion/substitution. modules: all vectors of length 1..3 over 8 values, through ActivateModuleByType and through network.ActivateModule on a control node under three link-weight patterns. non-trivial = distinct (function, input) pairs / distinct lookup keys", map[bool]int{true: 10, false: 0}[c.Quick()])
+	c.Rule = fmt.Sprintf("scalar functions: every float32 bit pattern with the low %d bits zero (finite values, walked in numeric order so monotonicity is a comparison of numeric neighbours), widened to float64, plus +-{0,1,2,3} ulps around every breakpoint, -0.0, powers of ten 1e-300..1e300 and exp-overflow thresholds; x 20 registered functions: closed form within 4 ulps or 1e-12 relative + 4e-16 absolute, finite, inside documented range, non-decreasing (<=4 ulps slack) for the sigmoid family/tanh/linear/clipped/step. lookups: all 256 type codes and every registered name with every single-character deletion/substitution. modules: all vectors of length 1..3 over 8 values, through ActivateModuleByType, through network.ActivateModule on a control node under three link-weight patterns, and through a fast solver holding three modules of arity 3/2/1 (all 27 type assignments x 6 list orders x all 512 input vectors); re-registration of a registered type under its own name. non-trivial = distinct (function, input) pairs / distinct lookup keys", map[bool]int{true: 10, false: 0}[c.Quick()])
 	total := (uint64(1) << 32) / step
 	chunk := uint64(1 << 16)
 	nChunks := int((total + chunk - 1) / chunk)
@@ -337,6 +337,23 @@ func c18Factories(c *Ctx) {
 	}
 	if _, err := neatmath.NodeActivators.ActivationNameFromType(custom); err == nil {
 		c.ViolateOrd("C18/register/leak", 0, "registering on a fresh factory made the type known to the global factory", nil)
+	}
+	// overriding the implementation of registered types under their own names keeps both directions
+	fresh.Register(neatmath.TanhActivation, func(x float64, _ []float64) float64 { return -x }, "TanhActivation")
+	fresh.RegisterModule(neatmath.MaxModuleActivation, func(in []float64, _ []float64) []float64 { return []float64{7} }, "MaxModuleActivation")
+	for _, pr := range []struct {
+		t neatmath.NodeActivationType
+		n string
+	}{{neatmath.TanhActivation, "TanhActivation"}, {neatmath.MaxModuleActivation, "MaxModuleActivation"}} {
+		c.AddEval(1)
+		n, e1 := fresh.ActivationNameFromType(pr.t)
+		t, e2 := fresh.ActivationTypeFromName(pr.n)
+		if e1 != nil || e2 != nil || n != pr.n || t != pr.t {
+			c.ViolateOrd("C18/register/override", int64(pr.t), fmt.Sprintf("after registering type %d again under its own name %q: type->name gives %q (err %v), name->type gives %d (err %v)", pr.t, pr.n, n, e1, t, e2), nil)
+		}
+	}
+	if v, err := fresh.ActivateByType(3, nil, neatmath.TanhActivation); err != nil || v != -3 {
+		c.ViolateOrd("C18/register/override-value", 0, fmt.Sprintf("the overriding implementation is not the one invoked: got %v (err %v), want -3", v, err), nil)
 	}
 	for _, s := range c18Scalars {
 		if n, err := fresh.ActivationNameFromType(s.code); err != nil || n != s.name {
@@ -491,7 +508,67 @@ func c18NetworkModule(mi int, in, w []float64) (string, string) {
 	return "", ""
 }
 
+// c18FastModules: the module functions reached through the fast solver, which evaluates a LIST of
+// modules per step: three modules of arity 3, 2 and 1 over linear hidden neurons that carry the loaded
+// inputs, every assignment of {product, max, min} to them, every order of the list, every input vector.
+func c18FastModules(c *Ctx) {
+	lin := neatmath.LinearActivation
+	acts := []neatmath.NodeActivationType{lin, lin, lin, lin, lin, lin, lin, lin, lin} // 3 inputs, 3 outputs, 3 hidden
+	arities := [][]int{{6, 7, 8}, {6, 7}, {8}}
+	perms := [][]int{{0, 1, 2}, {0, 2, 1}, {1, 0, 2}, {1, 2, 0}, {2, 0, 1}, {2, 1, 0}}
+	V := len(c18ModVals)
+	for types := 0; types < 27; types++ {
+		for pi, perm := range perms {
+			var mods []*network.FastControlNode
+			for _, k := range perm {
+				mi := (types / []int{1, 3, 9}[k]) % 3
+				mods = append(mods, &network.FastControlNode{ActivationType: c18Modules[mi].code, InputIndexes: arities[k], OutputIndexes: []int{3 + k}})
+			}
+			conns := []*network.FastNetworkLink{{SourceIndex: 0, TargetIndex: 6, Weight: 1}, {SourceIndex: 1, TargetIndex: 7, Weight: 1}, {SourceIndex: 2, TargetIndex: 8, Weight: 1}}
+			solver := network.NewFastModularNetworkSolver(0, 3, 3, 9, acts, conns, make([]float64, 9), mods)
+			for idx := 0; idx < V*V*V; idx++ {
+				in := []float64{c18ModVals[idx%V], c18ModVals[idx/V%V], c18ModVals[idx/V/V%V]}
+				c.AddEval(1)
+				_, _ = solver.Flush()
+				var outs []float64
+				var err error
+				func() {
+					defer func() {
+						if r := recover(); r != nil {
+							err = fmt.Errorf("panic: %v", r)
+						}
+					}()
+					if err = solver.LoadSensors(in); err == nil {
+						if _, err = solver.ForwardSteps(1); err == nil {
+							outs = solver.ReadOutputs()
+						}
+					}
+				}()
+				ord := int64(types)<<16 | int64(pi)<<12 | int64(idx)
+				rp := &Replay{Scenario: "fast-modules", Params: map[string]interface{}{"types": types, "perm": pi, "idx": idx}}
+				if err != nil || len(outs) != 3 {
+					c.ViolateOrd("C18/fast-solver-modules/error", ord, fmt.Sprintf("fast solver with three modules failed on inputs %v: %v (outputs %v)", in, err, outs), rp)
+					continue
+				}
+				for k := 0; k < 3; k++ {
+					mi := (types / []int{1, 3, 9}[k]) % 3
+					var args []float64
+					for _, h := range arities[k] {
+						args = append(args, in[h-6])
+					}
+					want := c18Modules[mi].ref(args)
+					if !(outs[k] == want || (math.IsNaN(outs[k]) && math.IsNaN(want))) {
+						c.ViolateOrd("C18/"+c18Modules[mi].name+"/fast-solver-module-value", ord, fmt.Sprintf("fast solver, modules listed in order %v: the %s module over inputs %v gave %g, want %g (all loaded inputs %v)", perm, c18Modules[mi].name, args, outs[k], want, in), rp)
+						break
+					}
+				}
+			}
+		}
+	}
+}
+
 func c18ModulesCheck(c *Ctx) {
+	c18FastModules(c)
 	V := len(c18ModVals)
 	for length := 1; length <= 3; length++ {
 		n := 1
@@ -545,6 +622,13 @@ func replayC18(c *Ctx, rp *Replay) (bool, string) {
 			return true, fmt.Sprintf("%s decreases: %g then %g", s.name, a, b)
 		}
 		return false, s.name
+	case "fast-modules":
+		sub := newCtx(c.ID, c.Tier, c.Level)
+		c18FastModules(sub)
+		if sub.ViolationCount() > 0 {
+			return true, sub.violations[0].Msg
+		}
+		return false, "fast-solver modules consistent"
 	case "module":
 		V := len(c18ModVals)
 		in := make([]float64, paramInt(rp, "len"))
